@@ -273,7 +273,7 @@ def check_cases(ctx, cases):
                 clist("(%s, %s)" % (cstr(a), cstr(b)) for a, b in decl)))
         else:
             terms.append("enc_bool true")
-    vals = ctx.coq_eval("c13", REQ, terms, chunk=250)
+    vals = nsgen.coq_eval_retry(ctx, "c13", REQ, terms, chunk=250)
     i = 0
     for c, o in zip(cases, observed):
         if o is None:
